@@ -81,6 +81,32 @@ func (w *world) startupScenario() error {
 		res.Fail("leftovers-after-restart | startup (undisturbed)", lo, nil)
 	}
 	res.Count(fmt.Sprintf("boundaries:startup=%d", n))
+	// which boundaries of the start-up are store deletes of the files of messages marked for deletion (the purge's own
+	// delete loop): when such a step fails the loop stops, and the stale-file sweep that follows must remove the rest
+	// during the SAME start
+	marked := map[string]bool{}
+	for _, m := range snapB.Ms {
+		if m.Deleted {
+			marked[m.IID] = true
+		}
+	}
+	purgeDel := map[int]bool{}
+	{
+		k := 0
+		for _, e := range tr.Events {
+			switch e.K {
+			case "end-r", "rollback", "commit":
+				if e.K == "commit" {
+					k++
+				}
+			default:
+				if (e.K == "del" || e.K == "del-err") && len(e.Args) == 1 && marked[e.Args[0]] {
+					purgeDel[k] = true
+				}
+				k++
+			}
+		}
+	}
 	for _, mode := range []string{"kill", "fail"} {
 		for k := 0; k < n; k++ {
 			pfx := fmt.Sprintf("S%s%d_", mode[:1], k)
@@ -92,6 +118,7 @@ func (w *world) startupScenario() error {
 			}
 			p, err := startChild(w.dir, fmt.Sprintf("%d:%s", k, mode), false)
 			fired := false
+			cameUp := err == nil
 			if mode == "kill" {
 				if err != nil && p != nil && p.died(3*time.Second) {
 					fired = true
@@ -113,12 +140,18 @@ func (w *world) startupScenario() error {
 			}
 			w.p = p
 			res.Evaluations++
+			if mode == "fail" && cameUp && fired && purgeDel[k] {
+				// a store delete of the purge failed: nothing unreferenced may be left when this start has finished
+				if lo, e := w.leftovers(); e == nil && lo != "" {
+					res.Fail("leftovers-after-start-with-failing-purge-delete | "+canon, lo, nil)
+				}
+			}
 			if !fired {
 				res.Count("not-fired:startup")
 				continue
 			}
 			res.Nontrivial(canon)
-			if mode == "fail" && err == nil {
+			if mode == "fail" && cameUp {
 				// the server came up although a clean-up step failed: the next clean start must finish the job
 				w.cleanQuit(canon)
 				if err := w.restart(""); err != nil {
@@ -140,7 +173,109 @@ func (w *world) startupScenario() error {
 			}
 		}
 	}
+	// a cache file of a message marked for deletion is already missing at start-up: the purge's delete loop stops at it;
+	// the other files must be gone when the start has finished
+	for j := 1; j <= 2; j++ {
+		pfx := fmt.Sprintf("Sm%d_", j)
+		canon := fmt.Sprintf("startup with the cache file of marked message %d of 2 missing", j)
+		w.ctx.Current(canon, nil)
+		before, err := prepare(pfx)
+		if err != nil {
+			return fmt.Errorf("prepare %s: %w", canon, err)
+		}
+		// the j-th row marked for deletion (rows are ordered by internal id, the order of the purge's delete loop)
+		gone, c := "", 0
+		for _, m := range snapB.Ms {
+			if m.Deleted {
+				c++
+				if c == j {
+					gone = m.IID
+				}
+			}
+		}
+		if gone != "" {
+			os.Remove(filepath.Join(storeDirOf(w.dir), gone))
+		}
+		if err := w.restart(""); err != nil {
+			res.Fail("restart-failed | "+canon, err.Error(), nil)
+			return err
+		}
+		res.Evaluations++
+		res.Nontrivial(canon)
+		if lo, e := w.leftovers(); e == nil && lo != "" {
+			res.Fail("leftovers-after-start-with-missing-cache-file | "+canon, lo, nil)
+		}
+		after, bad, err := viewOf(w.p, pfx)
+		if err != nil {
+			return err
+		}
+		if after != before || len(bad) > 0 {
+			res.Fail("neither-before-nor-after | "+canon, fmt.Sprintf("before: %s | after: %s | %v", before, after, bad), nil)
+		}
+	}
 	return nil
+}
+
+// resurrectScenario: the connector deletes a message and creates a message with the SAME remote id (new literal) before
+// the row of the old one has been purged; then the server is closed and reopened. Afterwards the new literal is served,
+// nothing marked for deletion remains and the store holds only referenced files.
+func (w *world) resurrectScenario() error {
+	res := w.ctx.Res
+	pfx := "RS_"
+	canon := "connector MessageDeleted r1; MessagesCreated r1 (new literal) in B; MessageDeleted r2; close; reopen"
+	w.ctx.Current(canon, nil)
+	d, err := prepAB(w, pfx, 3, true)
+	closeAll(d)
+	if err != nil {
+		return err
+	}
+	w.quiesce()
+	if err := w.mustPush(&upd{Kind: "MessageDeleted", MsgRID: pfx + "r1"}); err != nil {
+		return err
+	}
+	if err := w.mustPush(&upd{Kind: "MessagesCreated", Items: []mcItem{{RID: pfx + "r1", Marker: pfx + "re", Mboxes: []string{pfx + "b"}}}}); err != nil {
+		res.Fail("recreate-refused | "+canon, err.Error(), nil)
+		return nil
+	}
+	if err := w.mustPush(&upd{Kind: "MessageDeleted", MsgRID: pfx + "r2"}); err != nil {
+		return err
+	}
+	want := fmt.Sprintf("%sA{v# n4 strue: 3=%sm3[]} %sB{v# n3 strue: 2=%sre[]}", pfx, pfx, pfx, pfx)
+	check := func(when string, restarted bool) error {
+		v, bad, err := viewOf(w.p, pfx)
+		if err != nil {
+			return err
+		}
+		res.Evaluations++
+		if maskUIDV(v) != want {
+			res.Fail("recreated-message-wrong | "+canon+" | "+when, fmt.Sprintf("view: %s | expected: %s", maskUIDV(v), want), nil)
+		}
+		if len(bad) > 0 {
+			res.Fail("listed-message-not-fetchable | "+canon+" | "+when, strings.Join(bad, "; "), nil)
+		}
+		if restarted {
+			if lo, e := w.leftovers(); e == nil && lo != "" {
+				res.Fail("leftovers-after-restart | "+canon+" | "+when, lo, nil)
+			}
+		}
+		return nil
+	}
+	res.Nontrivial(canon)
+	if err := check("before the restart", false); err != nil {
+		return err
+	}
+	w.cleanQuit("resurrect")
+	if err := w.restart(""); err != nil {
+		return err
+	}
+	if err := check("after close + reopen", true); err != nil {
+		return err
+	}
+	w.p.kill()
+	if err := w.restart(""); err != nil {
+		return err
+	}
+	return check("after kill + restart", true)
 }
 
 // redownloadScenario: a listed message whose cache file is missing is downloaded again from the connector and served
